@@ -209,7 +209,7 @@ pub fn text_lines(pool: &NamePool, max: usize) -> BoxedStrategy<Vec<TextLine>> {
 #[derive(Clone, Debug, serde::Serialize, serde::Deserialize, PartialEq, Eq)]
 pub struct TextTrace {
     pub lines: Vec<TextLine>,
-    /// 0 = LF, 1 = CRLF, 2 = mixed
+    /// 0 = LF, 1 = CRLF, 2 = mixed, 3 = bare CR (not a line terminator for the text API: one long line)
     pub eol: u8,
     pub final_eol: bool,
 }
@@ -236,7 +236,8 @@ impl TextTrace {
                 match self.eol {
                     0 => out.push('\n'),
                     1 => out.push_str("\r\n"),
-                    _ => out.push_str(if i % 2 == 0 { "\r\n" } else { "\n" }),
+                    2 => out.push_str(if i % 2 == 0 { "\r\n" } else { "\n" }),
+                    _ => out.push_str(if i % 3 == 0 { "\r" } else { "\n" }),
                 }
             }
         }
@@ -245,7 +246,7 @@ impl TextTrace {
 }
 
 pub fn text_trace(pool: &NamePool, max: usize) -> BoxedStrategy<TextTrace> {
-    (text_lines(pool, max), 0u8..3, any::<bool>())
+    (text_lines(pool, max), prop_oneof![4 => Just(0u8), 2 => Just(1u8), 2 => Just(2u8), 1 => Just(3u8)], any::<bool>())
         .prop_map(|(lines, eol, final_eol)| TextTrace { lines, eol, final_eol })
         .boxed()
 }
